@@ -10,8 +10,7 @@ about them is re-proved against the current source.
       (a, b)
   }
 
-A `u32` is modelled as a `Nat` below `2^32` (`Model/ArenaBV.lean`-free: the `BitVec 32`
-reading is `IsoVerif.Arena.indexBV`).
+A `u32` is modelled as a `Nat` below `2^32`; `indexBV` is the `BitVec 32` reading.
 -/
 import IsoVerif.Gen.ArenaConsts
 
@@ -24,13 +23,17 @@ def clz32 (i : Nat) : Nat := if i = 0 then 32 else 31 - Nat.log2 i
 /-- `bucket_capacity(a) = (1 << topShift) >> a` (on `usize`; no overflow for `topShift < 64`). -/
 def bucketCapacity (a : Nat) : Nat := (1 <<< topShift) >>> a
 
+/-- bucket number: `i.leading_zeros()` -/
+def idxA (i : Nat) : Nat := clz32 i
+
+/-- offset in the bucket: `i & ((bucket_capacity(0) as u32 - 1) >> a)` -/
+def idxB (i : Nat) : Nat := i &&& ((bucketCapacity 0 - 1) >>> idxA i)
+
 /-- `index(i)`.  `none` is the panic `attempt to shift right with overflow`: with overflow checks
 on (the harness and the test profile) `u32 >> 32` panics, which is what `i = 0` produces.
 `add_get` never calls it with `i = 0` (`assert!(s >= MIN_SIZE)` comes first). -/
 def index (i : Nat) : Option (Nat × Nat) :=
-  let a := clz32 i
-  if 32 ≤ a then none
-  else some (a, i &&& ((bucketCapacity 0 - 1) >>> a))
+  if 32 ≤ idxA i then none else some (idxA i, idxB i)
 
 /-- `BitVec 32` reading of the same function. -/
 def indexBV (i : BitVec 32) : Option (Nat × Nat) := index i.toNat
@@ -42,9 +45,9 @@ def bucketBase (a : Nat) : Nat := bucketCapacity a
 /-- `Ref::index`: unbias. -/
 def unbias (i : Nat) : Nat := i - minSize
 
-/-- Sum of the capacities of the buckets `a, a+1, …, numSizes-1` (the buckets filled before and
-including `a`, the array being used back to front). -/
-def capSumFrom (a : Nat) : Nat :=
-  ((List.range numSizes).filter (fun j => a ≤ j)).foldl (fun acc j => acc + bucketCapacity j) 0
+/-- Sum of the capacities of the `n` buckets `a, a+1, …, a+n-1`. -/
+def capSum : Nat → Nat → Nat
+  | _, 0 => 0
+  | a, n + 1 => bucketCapacity a + capSum (a + 1) n
 
 end IsoVerif.Arena
